@@ -28,7 +28,7 @@ func init() { register("C11", runC11) }
 
 type c11Case struct {
 	Kind      string `json:"kind"`             // prune | ru | prunefrom | simplify | cli
-	Stream    string `json:"stream,omitempty"` // main | known-top-line-match | known-prune_from
+	Stream    string `json:"stream,omitempty"` // main | known-prune-H | known-prune_from
 	Profile   string `json:"profile,omitempty"`
 	Drop      string `json:"drop,omitempty"` // expression (prune: used as given; ru/cli: the profile's DropFrames)
 	Keep      string `json:"keep,omitempty"`
@@ -95,24 +95,76 @@ func (e *c11Env) lineMatcher(drop, keep *regexp.Regexp) func(profile.Line) bool 
 	}
 }
 
-// hypB: the hypothesis of prune_spec_frames_partial fails for some sample: scanning from the root,
-// a location whose root-most line matches and which lies before the first location of another kind
-// has a non-matching line.
-func hypBViolated(p *profile.Profile, m func(profile.Line) bool) bool {
+// pruneFamilies: how the hypothesis H of prune_spec_frames_partial fails for some sample. Scanning
+// from the root, before the first location without any matching line:
+//   famA — a location with a matching line whose root-most line does not match (its root-side lines
+//          are user frames the per-sample loop does not count);
+//   famB — a location whose root-most line matches but which has a non-matching line.
+func pruneFamilies(p *profile.Profile, m func(profile.Line) bool) (famA, famB bool) {
 	for _, s := range p.Sample {
 		for i := len(s.Location) - 1; i >= 0; i-- {
 			l := s.Location[i]
-			if len(l.Line) == 0 || !m(l.Line[len(l.Line)-1]) {
-				break // not of the "whole" kind
-			}
+			n := 0
 			for _, ln := range l.Line {
-				if !m(ln) {
-					return true
+				if m(ln) {
+					n++
 				}
+			}
+			if n == 0 {
+				break // first user location: from here on the loop and the rule agree
+			}
+			if !m(l.Line[len(l.Line)-1]) {
+				famA = true
+			} else if n < len(l.Line) {
+				famB = true
 			}
 		}
 	}
-	return false
+	return
+}
+
+func hypBViolated(p *profile.Profile, m func(profile.Line) bool) bool {
+	a, b := pruneFamilies(p, m)
+	return a || b
+}
+
+// pruneHyp asks the model which samples violate the hypothesis PruneH of prune_spec_frames_partial
+// and how; the Go classification above is only used to cross-check the reply.
+func pruneHyp(c *Ctx, args string, p *profile.Profile, m func(profile.Line) bool) (known bool, sig string) {
+	ga, gb := pruneFamilies(p, m)
+	rep := strings.Fields(c.Drv.Ask("prune.H " + args))
+	a, b := false, false
+	for _, f := range rep {
+		a = a || f == "1"
+		b = b || f == "2"
+	}
+	if len(rep) != len(p.Sample) || (a || b) != (ga || gb) {
+		c.Disagree("C11/hypothesis-classifier", "harness and model disagree on which samples satisfy the hypothesis PruneH", "hypothesis PruneH of prune_spec_frames_partial (driver op prune.H)", map[string]string{"args": trunc(args)})
+	}
+	if a {
+		return true, "C11/prune/H-violated/partial-first-user-location"
+	}
+	return b, "C11/prune/H-violated/top-line-match"
+}
+
+func pruneFromHyp(c *Ctx, args string, p *profile.Profile, m func(profile.Line) bool) bool {
+	rep := strings.Fields(c.Drv.Ask("prunefrom.H " + args))
+	v := false
+	for _, f := range rep {
+		v = v || f == "1"
+	}
+	if len(rep) != len(p.Sample) || v != hypPFViolated(p, m) {
+		c.Disagree("C11/hypothesis-classifier", "harness and model disagree on which samples satisfy the hypothesis PruneFromH", "hypothesis PruneFromH of pruneFrom_spec_partial (driver op prunefrom.H)", map[string]string{"args": trunc(args)})
+	}
+	return v
+}
+
+func pruneKnownSig(p *profile.Profile, m func(profile.Line) bool) string {
+	a, _ := pruneFamilies(p, m)
+	if a {
+		return "C11/prune/H-violated/partial-first-user-location"
+	}
+	return "C11/prune/H-violated/top-line-match"
 }
 
 // hypPF: the hypothesis of pruneFrom_spec_partial fails for some sample: a location on the root
@@ -211,14 +263,14 @@ func c11Judge(c *Ctx, e *c11Env, cs c11Case, what string, in, real *profile.Prof
 		switch {
 		case known && (kind == "frames-extra" || (what == "prune_from" && kind == "frames-lost")):
 			sig = knownSig
-		case what != "prune_from" && unrepaired != "" && Canon(real) == unrepaired && Canon(real) != model:
-			sig = "C11/prune/partial-first-user-location-leaves-hole"
-			msg = "a location whose root-side lines are the first user frames and whose inner line matches is trimmed but nothing on its leaf side is cut: " + msg
 		}
 		c.Violation(sig, msg, cs)
 	}
 	c.Res.ModelCompared++
 	if got := Canon(real); got != model && (!oracleFailed || known) {
+		if os.Getenv("VERIF_DEBUG") != "" {
+			fmt.Fprintf(os.Stderr, "REAL  %s\nMODEL %s\n", got, model)
+		}
 		c.Disagree("C11/"+what+"-model", what+" and the Lean model differ", "correspondence Prune model ~ profile/prune.go (theorems prune_spec_frames_partial, pruneFrom_spec_partial, prune_sample_count_values_labels)", cs)
 	}
 }
@@ -237,7 +289,7 @@ func c11Prune(c *Ctx, e *c11Env, cs c11Case) {
 	specS := c.Drv.Ask("prune.spec " + args)
 	model := c.Drv.Ask("prune.model " + args)
 	unrep := ""
-	known := hypBViolated(p, e.lineMatcher(drop, keep))
+	known, knownSig := pruneHyp(c, args, p, e.lineMatcher(drop, keep))
 	in, _ := ParseCanon(cs.Profile)
 	inViews := viewList(in)
 	what := "prune"
@@ -281,7 +333,7 @@ func c11Prune(c *Ctx, e *c11Env, cs c11Case) {
 			return
 		}
 	}
-	c11Judge(c, e, cs, what, in, p, inViews, specS, model, unrep, "C11/prune/H-violated/top-line-match", known)
+	c11Judge(c, e, cs, what, in, p, inViews, specS, model, unrep, knownSig, known)
 }
 
 func c11PruneFrom(c *Ctx, e *c11Env, cs c11Case) {
@@ -297,7 +349,7 @@ func c11PruneFrom(c *Ctx, e *c11Env, cs c11Case) {
 	args := e.tbl(re, p) + " " + cs.Profile
 	specS := c.Drv.Ask("prunefrom.spec " + args)
 	model := c.Drv.Ask("prunefrom.model " + args)
-	known := hypPFViolated(p, e.lineMatcher(re, nil))
+	known := pruneFromHyp(c, args, p, e.lineMatcher(re, nil))
 	in, _ := ParseCanon(cs.Profile)
 	inViews := viewList(in)
 	if pn := safely(func() { p.PruneFrom(re) }); pn != "" {
@@ -396,7 +448,7 @@ func c11CliEval(c *Ctx, e *c11Env, cs c11Case, res cliOut) {
 		}
 		cur = rep[3:]
 		known = hypBViolated(p, e.lineMatcher(drop, keep))
-		knownSig = "C11/prune/H-violated/top-line-match"
+		knownSig = pruneKnownSig(p, e.lineMatcher(drop, keep))
 		if cs.PruneFrom == "" {
 			specS = c.Drv.Ask("prune.spec " + e.tbl(drop, p) + " " + e.optTbl(keep, p) + " " + cs.Profile)
 		}
@@ -437,15 +489,6 @@ func c11CliEval(c *Ctx, e *c11Env, cs c11Case, res cliOut) {
 				sig := "C11/cli/" + kind
 				if known && (kind == "frames-extra" || (cs.PruneFrom != "" && kind == "frames-lost")) {
 					sig = knownSig
-				} else if p.DropFrames != "" && cs.PruneFrom == "" {
-					// the pinned scan?
-					drop, keep, _ := c11Compile(c11Case{Drop: p.DropFrames, Keep: p.KeepFrames}, true)
-					un := c.Drv.Ask("prune.unrepaired " + e.tbl(drop, p) + " " + e.optTbl(keep, p) + " " + cs.Profile)
-					if uv, ok := splitViews(c.Drv.Ask("views " + un)); ok {
-						if k2, _, _ := diffViews(res.views, uv); k2 == "" {
-							sig = "C11/prune/partial-first-user-location-leaves-hole"
-						}
-					}
 				}
 				c.Violation(sig, fmt.Sprintf("pprof -proto (drop_frames=%q keep_frames=%q prune_from=%q) differs from the frame-level rule (%s): real %q, rule %q", p.DropFrames, p.KeepFrames, cs.PruneFrom, kind, trunc(rv), trunc(sv)), cs)
 			}
@@ -667,7 +710,7 @@ func runC11(c *Ctx) {
 		}
 		m := e.lineMatcher(drop, keep)
 		if hypBViolated(p, m) {
-			cs.Stream = "known-top-line-match"
+			cs.Stream = "known-prune-H"
 		}
 		c.Res.Hit(cs.Kind + ":stream:" + cs.Stream)
 		if keep != nil {
@@ -773,7 +816,7 @@ func runC11(c *Ctx) {
 				m := e.lineMatcher(drop, keep)
 				nt = c11Stats(c, e, p, m, "cli-prune")
 				if hypBViolated(p, m) {
-					cs.Stream = "known-top-line-match"
+					cs.Stream = "known-prune-H"
 				}
 			}
 			c.Res.Hit("cli:drop_frames")
